@@ -229,6 +229,9 @@ type stepOut struct {
 	Applied  int
 	// Ambiguous: keys (proposal hashes) whose expected content is not pinned by any property in this block
 	Ambiguous map[string]bool
+	// warm-up heights only: admissible issuance per owner [min,max] and what the model itself issued
+	RewardRange map[string][2]*big.Int
+	ModelIssued map[string]*big.Int
 }
 
 // Step predicts block h. pre = observed state(h-1).
@@ -281,6 +284,47 @@ func (m *Model) Step(b *BlockSpec, txs []*TxInfo, res *BlockResult) *stepOut {
 			src = m.Hist[1] // warm-up
 		}
 		rpp := bigDec(P.RewardPerPower)
+		if hp < 1 {
+			// warm-up (h <= 4): "the height consensus derived the power from" does not exist yet. The model follows
+			// what the code does, but any committed state a reasonable reading could pick is tolerated: per owner
+			// the issuance may lie between the smallest and the largest amount over the candidate source states.
+			out.RewardRange = map[string][2]*big.Int{}
+			cands := []*MState{m.Hist[0]}
+			for hh := int64(1); hh < h; hh++ {
+				if m.Hist[hh] != nil {
+					cands = append(cands, m.Hist[hh])
+				}
+			}
+			per := func(st *MState) map[string]*big.Int {
+				o := map[string]*big.Int{}
+				for _, v := range b.Votes {
+					if !v.Signed {
+						continue
+					}
+					if d := st.Delegatees[hx(v.Addr)]; d != nil {
+						for _, sk := range d.Stakes {
+							if o[sk.Owner] == nil {
+								o[sk.Owner] = new(big.Int)
+							}
+							o[sk.Owner].Add(o[sk.Owner], new(big.Int).Mul(big.NewInt(sk.Power), rpp))
+						}
+					}
+				}
+				return o
+			}
+			for _, st := range cands {
+				for own, amt := range per(st) {
+					rg, ok := out.RewardRange[own]
+					if !ok {
+						rg = [2]*big.Int{new(big.Int), new(big.Int)}
+					}
+					if amt.Cmp(rg[1]) > 0 {
+						rg[1] = amt
+					}
+					out.RewardRange[own] = rg
+				}
+			}
+		}
 		for _, v := range b.Votes {
 			a := hx(v.Addr)
 			if v.Signed {
@@ -305,6 +349,15 @@ func (m *Model) Step(b *BlockSpec, txs []*TxInfo, res *BlockResult) *stepOut {
 					}
 					r.Cumulated.Add(r.Cumulated, amt)
 					issued.Add(issued, amt)
+					if out.RewardRange != nil {
+						if out.ModelIssued == nil {
+							out.ModelIssued = map[string]*big.Int{}
+						}
+						if out.ModelIssued[s.Owner] == nil {
+							out.ModelIssued[s.Owner] = new(big.Int)
+						}
+						out.ModelIssued[s.Owner].Add(out.ModelIssued[s.Owner], amt)
+					}
 				}
 			} else {
 				d := ws.Delegatees[a]
@@ -669,7 +722,17 @@ func (m *Model) applyTx(ws *MState, ti *TxInfo, r *abci.ResponseDeliverTx, h int
 			rw = m.rewardRec(ws, from)
 		}
 		if req.Cmp(rw.Cumulated) > 0 {
-			issue("C13", "excess-withdraw-accepted", fmt.Sprintf("request %s > withdrawable %s", req, rw.Cumulated))
+			// warm-up blocks: the issuance of this block is only known up to the admissible range (see Step)
+			lim := new(big.Int).Set(rw.Cumulated)
+			if rg, ok := out.RewardRange[from]; ok {
+				lim.Add(lim, rg[1])
+				if mi := out.ModelIssued[from]; mi != nil {
+					lim.Sub(lim, mi)
+				}
+			}
+			if req.Cmp(lim) > 0 {
+				issue("C13", "excess-withdraw-accepted", fmt.Sprintf("request %s > withdrawable %s", req, lim))
+			}
 		}
 		if amt.Sign() != 0 {
 			issue("C13", "withdraw-with-amount-accepted", "withdraw transaction carrying an amount succeeded")
